@@ -108,6 +108,12 @@ def asCxMat (j : Json) : R (Array (Array (Cx Rat))) := do
     let cs ← r.getArr?
     cs.mapM asCx
 
+def asRatMat' (j : Json) : R (Array (Array Rat)) := do
+  let rows ← j.getArr?
+  rows.mapM fun r => do
+    let cs ← r.getArr?
+    cs.mapM asRat
+
 /-- memoise a state into arrays (so that closures do not nest across operations) -/
 def memo (st : GS Rat) : GS Rat :=
   let n := st.n
@@ -143,6 +149,21 @@ def gaussStep (st : GS Rat) (j : Json) : R (GS Rat) := do
     return initThermal st (← rat "pop") (← nat "k")
   else if op == "addMode" then
     return addMode st (← nat "m")
+  else if op == "fromCov" then
+    let modes ← getNatList j "modes"
+    let A ← asRatMat' (← j.getObjVal? "A")
+    let B ← asRatMat' (← j.getObjVal? "B")
+    let C ← asRatMat' (← j.getObjVal? "C")
+    let rx ← (← getArr j "rx").mapM asRat
+    let rp ← (← getArr j "rp").mapM asRat
+    let rxa := rx.toArray
+    let rpa := rp.toArray
+    let f (a : Array (Array Rat)) : Nat → Nat → Rat := fun i k => (a.getD i #[]).getD k 0
+    return fromCov st (1/4) (1/2) modes (f A) (f B) (f C) (fun i => rxa.getD i 0) (fun i => rpa.getD i 0)
+  else if op == "applyU" then
+    let modes ← getNatList j "modes"
+    let T ← asCxMat (← j.getObjVal? "T")
+    return applyU st (expandT modes fun i k => (T.getD i #[]).getD k 0)
   else throw s!"gauss: unknown op {op}"
 
 /-- the same step on the specification side -/
